@@ -44,7 +44,9 @@ def gen_line(rng):
     words = []
     for _ in range(rng.randint(0, 7)):
         if rng.random() < 0.45:
-            words.append(decorate(rng, rng.choice(TARGETS)))
+            # sometimes the same target again
+            prev = [w for w in words if w.strip("(),.?!;:") in TARGETS]
+            words.append(decorate(rng, rng.choice(prev).strip("(),.?!;:") if prev and rng.random() < 0.2 else rng.choice(TARGETS)))
         else:
             words.append(rng.choice(PLAIN))
     return pre + primary + " ".join(words)
@@ -77,6 +79,31 @@ def spec_targets(line, is_zoq):
                 primary_seen = True          # the note's own ZID
                 in_prefix = False
             else:
+                out.append(zw)
+            continue
+        if in_prefix and (w in ("-", "o", "x", "~", "<", ">", "") or re.fullmatch(r"P\d", w) or re.fullmatch(r"\d{6}", w)):
+            continue
+        in_prefix = False
+    return out
+
+
+def spec_targets_without(line, is_zoq, dropped):
+    """spec_targets minus the ZID targets at the given word positions"""
+    out, primary_seen, in_prefix = [], False, True
+    for idx, w0 in enumerate(line.split(" ")):
+        w = w0.strip("(),.?!;:")
+        if re.fullmatch(r"\[\[[^\[\]]+\]\]|\[\^[^\]]+\]|\[#[^\]]+\]|\[@[^\]]+\]|\[![^\]]+\]", w):
+            out.append(w)
+            in_prefix = False
+            continue
+        zw = w.strip("[]")
+        if is_zid(zw):
+            if is_zoq:
+                out.append(zw)
+            elif in_prefix and not primary_seen and zw == w and idx > 0:
+                primary_seen = True
+                in_prefix = False
+            elif idx not in dropped:
                 out.append(zw)
             continue
         if in_prefix and (w in ("-", "o", "x", "~", "<", ">", "") or re.fullmatch(r"P\d", w) or re.fullmatch(r"\d{6}", w)):
@@ -167,6 +194,12 @@ def check_line(eng, d, path, lineno, line, oc):
         # option-k law on the implementation: same as a line containing only the k-th target
         if opt is not None and first_out and first_out[0].startswith("PROMPT ") and opt != len(mt) + 1:
             offered = first_out[0][7:].split(" ")
+            if opt != -1 and not (1 <= opt <= len(offered)):
+                if out and out[0].startswith(("EDIT ", "SEARCH ")):
+                    oc.spec_fail.append(({"line": line, "file": path, "opt": opt}, [out, rc],
+                                         {"offered_through_PROMPT": offered, "but_option_opens_something": opt}, None))
+                    ok = False
+                continue
             t = offered[-1] if opt == -1 else offered[opt - 1]
             single = impl_single.get(t)
             if single is not None and single != [out, rc]:
@@ -194,6 +227,7 @@ def check_line(eng, d, path, lineno, line, oc):
             # (the implementation's found_primary_zid flag is still unset), while the property's reading
             # (spec_targets) counts that ZID as non-primary
             seen_ordinary = False
+            dropped = set()
             spec_pos = spec_target_positions(line, is_zoq)
             for i, w in enumerate(words):
                 linkish = (("[[" in w and "]]" in w) or ("[#" in w and "]" in w) or ("[@" in w and "]" in w)
@@ -203,10 +237,23 @@ def check_line(eng, d, path, lineno, line, oc):
                     continue
                 if is_zid(zw) and not is_zoq and i != 0 and not seen_ordinary and i in spec_pos:
                     trig = "primary_flag_late"
+                    dropped.add(i)
                 if is_zid(zw) and (seen_ordinary or is_zoq or i == 0):
                     continue
                 if not (w in ("-", "o", "x", "~", "<", ">") or re.fullmatch(r"P\d|\d{6}", w) or is_zid(w)):
                     seen_ordinary = True
+            if trig:
+                # the known finding explains the answer only if the answer is the one for the targets WITHOUT those ZIDs
+                st2 = spec_targets_without(line, is_zoq, dropped)
+                if len(st2) >= 2:
+                    explained = first_out == ["PROMPT " + " ".join(st2)]
+                elif len(st2) == 0:
+                    explained = len(first_out) == 1 and first_out[0].startswith("ECHO We did not find")
+                else:
+                    single2 = impl_single.get(st2[0])
+                    explained = single2 is None or first_out == single2[0]
+                if not explained:
+                    trig = None
             if trig:
                 oc.known_hit[trig] = line
                 oc.count("known_class_primary_flag")
